@@ -485,8 +485,10 @@ Section Den.
   Variable arr : Z -> farr.          (* captured arrays by tag *)
   Variable scal : Z -> R.            (* scalar multipliers by tag *)
   Variable orc : linop -> farr -> farr.   (* library-backed leaves (FFT, NUFFT, wavelet, interp, conv) *)
-
-  Definition force (s : list Z) (f : farr) : farr := of_list zero s (tabulate s f).
+  (* [force] re-tabulates an intermediate array (memoisation for vm_compute); the theorems are about
+     [den] with the identity in its place, the runs use [retab]; lib/NdArray.of_list_tabulate shows
+     that [retab s f] and [f] agree on the index box of s. *)
+  Variable force : list Z -> farr -> farr.
 
   Fixpoint sum_list (l : list R) : R := match l with [] => zero | v :: l' => add v (sum_list l') end.
 
@@ -707,4 +709,7 @@ Section Den.
     end.
 End Den.
 
-Arguments den {R}. Arguments force {R}.
+Arguments den {R}.
+Definition retab {R : Ops} (s : list Z) (f : list Z -> R) : list Z -> R := of_list zero s (tabulate s f).
+Definition noforce {R : Ops} (s : list Z) (f : list Z -> R) : list Z -> R := f.
+
